@@ -896,10 +896,18 @@ retry:
 
 // unregisters a connected player
 func (p *Proxy) unregisterConnection(player *connectedPlayer) (found bool) {
+	lowerName := strings.ToLower(player.Username())
 	p.muP.Lock()
-	_, found = p.playerIDs[player.ID()]
-	delete(p.playerNames, strings.ToLower(player.Username()))
-	delete(p.playerIDs, player.ID())
+	// Only remove entries that hold this very connection: a rejected duplicate login
+	// (same name or id) is torn down through here too and must not unregister the
+	// player that is actually online.
+	if p.playerNames[lowerName] == player {
+		delete(p.playerNames, lowerName)
+	}
+	if p.playerIDs[player.ID()] == player {
+		found = true
+		delete(p.playerIDs, player.ID())
+	}
 	empty := len(p.playerIDs) == 0
 	p.muP.Unlock()
 	if empty {
